@@ -1,5 +1,7 @@
 import LzmaVerif.Proofs.XzForged
 import LzmaVerif.Proofs.LzipFile
+import LzmaVerif.Proofs.Total
+import LzmaVerif.Proofs.ScanShift
 /-!
 # C04 — corrupted XZ/LZIP input is never returned as valid different data
 
@@ -28,6 +30,14 @@ agree.  Theorems about the models, for EVERY input byte string:
   compressed and uncompressed sizes have equal Index records, the file with the two exchanged is exactly the
   writer's stream for the exchanged data and is accepted as such (XZ has one check per block and none over the
   whole stream; `xz -t` accepts it too).
+
+* `lzip_mt_scan_accepts_only_tiled_files` – the multi-threaded LZIP reader finds its members by a backward scan
+  over the trailers (`LZIPReaderMT::scan_members`, model `Guards.scanFile`); if that scan accepts a file, the
+  members it hands to the workers tile the file exactly from byte 0 to its end: no byte of an accepted file is
+  outside a member (each member is then decoded by an `LZIPReader`, to which the theorems above apply).  Before the
+  repair of `scan_members` up to 19 bytes in front of the first member were ignored (a three-member file with
+  its first member cut down to its last 10 bytes was read as `Ok` with the data of members 2 and 3).
+  `lzip_mt_scan_rejects_leading_junk` – 1..19 bytes in front of a file the scan accepts are an error.
 
 What no reader can exclude is a corruption that also matches the 32/64/256-bit check: "is the original"
 follows from these theorems under the hypothesis that the check separates the original from the output.
@@ -128,5 +138,36 @@ theorem lzip_damaged_header_is_error_later (ms : List (Nat × List Nat × List N
     (hcap : (fileData ms).length ≤ cap) :
     decode (fileBytes ms ++ (Consts.LZIP_MAGIC ++ v :: rest)) cap = .err .invalidData :=
   decode_later_bad_version ms hne hm v rest hv cap hcap
+
+open Guards in
+/-- `LZIPReaderMT::new` (`scan_members`) accepts a file only if the members it returns tile the file exactly
+    from byte 0: the first member starts at 0, each starts where its predecessor ends, the last ends at the end
+    of the file, so every byte of the file belongs to a member; every member starts with the magic bytes and its
+    trailer's `member_size` field is its size -/
+theorem lzip_mt_scan_accepts_only_tiled_files (file : List Nat) (ms : List Member) (h : scanFile file = .ok ms) :
+    ms ≠ [] ∧ Total.Contig 4 0 ms file.length ∧
+    (∀ p, p < file.length → ∃ m ∈ ms, m.start ≤ p ∧ p < m.start + m.size) ∧
+    (ms.map (·.size)).sum = file.length ∧
+    (∀ m ∈ ms, magicOf file m.start = true ∧ memberSizeOf file (m.start + m.size) = m.size) := by
+  obtain ⟨h1, h2, h3, h4⟩ := Total.scanFile_tiles file h
+  refine ⟨h1, h2, h3, ?_, h4⟩
+  have := h2.sum_sizes
+  omega
+
+/-- 1..19 bytes of anything in front of a file that `scan_members` accepts are reported (`InvalidData`, "Data in
+    front of the first LZIP member"); the unrepaired scan answered `Ok` with the members of `rest`.  (From 20 bytes on
+    the bytes in front are read as a trailer: the verdict depends on them, and the theorem above says what an
+    acceptance then means.) -/
+theorem lzip_mt_scan_rejects_leading_junk (junk rest : List Nat) (ms : List Guards.Member)
+    (h : Guards.scanFile rest = .ok ms) (h0 : 0 < junk.length) (h20 : junk.length < 20) :
+    Guards.scanFile (junk ++ rest) = .error .leading :=
+  Total.scanFile_leading_junk junk rest ms h h0 h20
+
+/-- non-vacuity of `lzip_mt_scan_rejects_leading_junk` -/
+example : Guards.scanFile ([9, 9, 9] ++ (Total.exMember ++ Total.exMember)) = .error .leading :=
+  lzip_mt_scan_rejects_leading_junk [9, 9, 9] _ _ Total.exScan (by decide) (by decide)
+
+/-- non-vacuity: a two-member file is accepted, with the members at 0 and 26 -/
+example : Guards.scanFile (Total.exMember ++ Total.exMember) = .ok [⟨0, 26⟩, ⟨26, 26⟩] := Total.exScan
 
 end LzmaVerif.Props.C04
